@@ -30,7 +30,11 @@ RULE = ("enumerated, not sampled: every permutation of 1..n (n<=6; quick: n<=5 p
         "even n>=4 / p>=2 and d>=2; distinct = hash of the case description. The projector functions are called in every accepted argument form "
         "(positional, keyword, default p=2, partial given as bool or as 0/1) and the forms must agree bit for bit (dense) or each satisfy the isometry contract (partial). The only array-like arguments (the permutation of perm_sign: list or int64 ndarray, "
         "the object labels of perfect_matchings: list or int64 ndarray, the element list of unique_perms) keep their exact integer dtype; ndarray forms are also handed "
-        "over as strided views; all of them are compared with a deep snapshot after the call")
+        "over as strided views; all of them are compared with a deep snapshot after the call. "
+        "Call sequences: for every multiset (one seeded listing) it = unique_perms(buf); the caller's list is edited in place (append a new / a repeated value, clear, "
+        "overwrite an element, pop, extend, reverse) before the first or after the first next(it); list(it) must be the distinct rearrangements of the contents of buf AT THE CALL "
+        "(each once) and consuming must not write into buf; one enumerator per prefix of a growing work list consumed afterwards (forward / reverse / round-robin); "
+        "perfect_matchings(list / ndarray) rows must stay the matchings of the objects passed when the caller edits its argument afterwards")
 ASSUMPTIONS = [
     "LAPACK LU (scipy.linalg.det) is exact on column-selected identity matrices (entries 0/1, one 1 per column); checked on every evaluated input",
     "float64 sums of 0/+-1 and one division by p! are correctly rounded (IEEE 754), so impl == k/p! is an exact comparison",
@@ -168,6 +172,178 @@ def check_unique_perms(ctx, elements, model_ok):
             ctx.count("unique_perms/order differs from mirror")
         else:
             ctx.count("unique_perms/order identical to mirror")
+
+
+# ------------------------------------------------------------------------------------------------ call / mutate / consume
+
+SEQ_EDITS = ("append", "append-dup", "clear", "overwrite", "pop", "extend", "reverse")
+SEQ_WHEN = ("before-first", "after-first")
+
+
+def _apply_edit(buf, edit, fresh):
+    """in-place edit of the caller's list after the enumerator was created"""
+    if edit == "append":
+        buf.append(fresh)
+    elif edit == "append-dup":
+        buf.append(buf[0] if buf else fresh)
+    elif edit == "clear":
+        buf.clear()
+    elif edit == "overwrite":
+        if buf:
+            buf[0] = fresh
+        else:
+            buf.append(fresh)
+    elif edit == "pop":
+        if buf:
+            buf.pop()
+        else:
+            buf.append(fresh)
+    elif edit == "extend":
+        buf.extend(list(buf) or [fresh])
+    elif edit == "reverse":
+        buf.reverse()
+    else:
+        raise ValueError(edit)
+
+
+def _spec_perms(elements):
+    cnt = {v: elements.count(v) for v in set(elements)}
+    multinom = math.factorial(len(elements))
+    for c in cnt.values():
+        multinom //= math.factorial(c)
+    return sorted(set(itertools.permutations(elements))), multinom
+
+
+def _judge_listing(out, elements):
+    spec, multinom = _spec_perms(elements)
+    return len(out) == len(set(out)) and sorted(out) == spec and len(out) == multinom
+
+
+def check_unique_perms_sequence(ctx, elements, edit, when, model_ok):
+    """unique_perms(buf) hands back a lazy iterator: what it lists must be the distinct rearrangements of the contents of `buf` AT THE
+    CALL, whatever the caller does with its own list before (or while) the iterator is consumed; and consuming must not write into `buf`"""
+    elements = [int(x) for x in elements]
+    desc = {"fn": "unique_perms_seq", "elements": elements, "edit": edit, "when": when}
+    cnt = {v: elements.count(v) for v in set(elements)}
+    ctx.case(desc, len(cnt) >= 2 and max(cnt.values(), default=0) >= 2, f"unique_perms/sequence/{edit}/{when}")
+    fresh = max(elements, default=0) + 5
+    buf = list(elements)
+
+    def seq():
+        it = iter(unique_perms(buf))
+        got = []
+        if when == "after-first":
+            got.append(next(it))
+        _apply_edit(buf, edit, fresh)
+        edited = list(buf)
+        got.extend(it)
+        return got, edited
+
+    impl = _call(seq)
+    if impl[0] != "ok":
+        ctx.violation(f"unique_perms({elements}); caller's list edited ({edit}, {when}); consuming raised {impl[1]}",
+                      {"function": "unique_perms", "args": desc, "impl": impl[1], "theorem": "uniquePerms_nodup / uniquePerms_complete"})
+        return
+    got, edited = impl[1]
+    out = [tuple(int(x) for x in t) for t in got]
+    if buf != edited:
+        ctx.violation(f"unique_perms({elements}): consuming the enumerator wrote into the caller's list ({edited} -> {buf})",
+                      {"function": "unique_perms", "args": desc, "impl": buf})
+    if not _judge_listing(out, elements):
+        spec, multinom = _spec_perms(elements)
+        later = _judge_listing(out, edited)
+        ctx.violation(f"it = unique_perms(buf) with buf = {elements}; buf edited ({edit}, {when}) to {edited}; list(it) has {len(out)} tuples "
+                      f"({len(set(out))} distinct), expected the {multinom} distinct rearrangements of {elements}"
+                      + ("; it lists the rearrangements of the LATER contents" if later else ""),
+                      {"function": "unique_perms", "args": desc, "impl": out[:50], "expected_count": multinom, "lists_later_contents": later,
+                       "theorem": "uniquePerms_nodup / uniquePerms_complete (the model enumerator is a function of the list passed to the call)"})
+        return
+    if model_ok:
+        model = ctx.lean().ask("c18_unique_perms", {"elements": elements, "uniq": [int(x) for x in set(elements)]})
+        if sorted(tuple(r) for r in model["perms"]) != sorted(out):
+            ctx.violation("unique_perms: Lean mirror differs from the set of distinct rearrangements (model defect)",
+                          {"function": "unique_perms", "args": desc, "model": model["perms"][:50], "theorem": "uniquePerms_complete"})
+
+
+def check_unique_perms_growing(ctx, values, order):
+    """one enumerator per prefix of a growing work list, all consumed afterwards (in the given order / round-robin): every one lists the
+    rearrangements of the prefix it was created from; live enumerators do not disturb each other"""
+    values = [int(x) for x in values]
+    desc = {"fn": "unique_perms_growing", "values": values, "order": order}
+    ctx.case(desc, len(set(values)) >= 2 and len(set(values)) < len(values), f"unique_perms/sequence/growing/{order}")
+
+    def seq():
+        work, its, snaps = [], [], []
+        for v in values:
+            work.append(v)
+            its.append(iter(unique_perms(work)))
+            snaps.append(list(work))
+        outs = [[] for _ in its]
+        if order == "round-robin":
+            live = list(range(len(its)))
+            while live:
+                for k in list(live):
+                    try:
+                        outs[k].append(next(its[k]))
+                    except StopIteration:
+                        live.remove(k)
+        else:
+            idx = range(len(its)) if order == "forward" else reversed(range(len(its)))
+            for k in idx:
+                outs[k] = list(its[k])
+        return snaps, outs, list(work)
+
+    impl = _call(seq)
+    if impl[0] != "ok":
+        ctx.violation(f"unique_perms on the prefixes of a growing list {values} ({order}) raised {impl[1]}",
+                      {"function": "unique_perms", "args": desc, "impl": impl[1]})
+        return
+    snaps, outs, work = impl[1]
+    if work != values:
+        ctx.violation(f"unique_perms: consuming wrote into the caller's list ({values} -> {work})", {"function": "unique_perms", "args": desc, "impl": work})
+    for snap, out in zip(snaps, outs):
+        out = [tuple(int(x) for x in t) for t in out]
+        if not _judge_listing(out, snap):
+            _, multinom = _spec_perms(snap)
+            ctx.violation(f"work list grown to {values}, one enumerator per prefix, consumed afterwards ({order}): the enumerator created from {snap} "
+                          f"listed {len(out)} tuples ({len(set(out))} distinct), e.g. {sorted(out)[:3]}; expected the {multinom} distinct rearrangements of {snap}",
+                          {"function": "unique_perms", "args": desc, "prefix": snap, "impl": out[:50], "expected_count": multinom,
+                           "theorem": "uniquePerms_nodup / uniquePerms_complete (the model enumerator is a function of the list passed to the call)"})
+            return
+
+
+def check_matchings_sequence(ctx, objs, form):
+    """perfect_matchings(arg) is evaluated eagerly: the rows are those of the argument at the call and stay so when the caller edits
+    its list / array afterwards (no view of the argument inside the result)"""
+    objs = [int(x) for x in objs]
+    n = len(objs)
+    desc = {"fn": "perfect_matchings_seq", "objects": objs, "form": form}
+    arg = list(objs) if form == "list" else np.array(objs)
+    impl = _call(perfect_matchings, arg)
+    if impl[0] != "ok":
+        return                                             # reported by check_matchings
+    out = impl[1]
+    if n == 2 and form == "array":
+        # base case `return num`: the result IS the caller's array (documented here, not alarmed: the returned value is right at return time)
+        ctx.count("perfect_matchings/n=2/array: result " + ("is the argument object" if out is arg else "is a new array"))
+        return
+    ctx.case(desc, n % 2 == 0 and n >= 4, f"perfect_matchings/sequence/n={n}/{form}")
+    snap = np.array(out, copy=True)
+    fresh = max(objs) + 3
+    if form == "list":
+        arg[0], arg[-1] = arg[-1], fresh
+        arg.append(fresh + 1)
+    else:
+        arg[0], arg[-1] = arg[-1], fresh
+        arg[1:-1] += 100
+    after = np.asarray(out)
+    rows = [[int(x) for x in r] for r in np.atleast_2d(after)] if n % 2 == 0 else []
+    ms = [_is_matching_row(r, objs) for r in rows]
+    if after.shape != snap.shape or not np.array_equal(after, snap) or (n % 2 == 0 and (any(m is None for m in ms) or len(set(ms)) != dfact(n))):
+        ctx.violation(f"perfect_matchings({objs} as {form}): the returned rows changed when the caller edited its argument afterwards "
+                      f"(they are no longer the {dfact(n) if n % 2 == 0 else 0} perfect matchings of the objects passed to the call)",
+                      {"function": "perfect_matchings", "args": desc, "impl": rows[:40], "before_edit": snap.tolist()[:40],
+                       "theorem": "perfectMatchings_valid / _nodup / _complete / _count"})
 
 
 # ------------------------------------------------------------------------------------------------ perfect_matchings
@@ -493,6 +669,16 @@ def run(ctx, model_ok=True):
     check_perm_sign(ctx, [2, 1], model_ok)
     check_unique_perms(ctx, [1, 1, 2], model_ok)
     check_matchings(ctx, [0, 1, 2, 3], "int", model_ok)
+    # call -> edit the caller's list -> consume (the enumerator is lazy; what it lists is fixed by the call)
+    check_unique_perms_sequence(ctx, [1, 1, 2], "append", "before-first", model_ok)
+    check_unique_perms_sequence(ctx, [4, 4, 4, 9, 9, 0], "clear", "before-first", model_ok)
+    check_unique_perms_sequence(ctx, [1, 2, 2], "overwrite", "before-first", model_ok)
+    check_unique_perms_sequence(ctx, [3, 1, 3, 2], "pop", "after-first", model_ok)
+    check_unique_perms_sequence(ctx, [], "append", "before-first", model_ok)
+    for order in ("forward", "reverse", "round-robin"):
+        check_unique_perms_growing(ctx, [2, 2, 5, 7], order)
+    check_matchings_sequence(ctx, [0, 1, 2, 3], "list")
+    check_matchings_sequence(ctx, [5, 3, 8, 1, 0, 2], "array")
 
     # perm_sign: all permutations of 1..n
     for n in range(1, 6 if quick else 7):
@@ -528,6 +714,16 @@ def run(ctx, model_ok=True):
                 check_unique_perms(ctx, elems, model_ok)
                 if n >= 2:
                     check_unique_perms(ctx, [int(x) for x in rng.permutation(elems)], model_ok)
+                # the same multiset in a call / edit / consume sequence (edit and moment determined by the case)
+                srng = case_rng("c18/unique_perms_seq", elems)
+                listing = [int(x) for x in srng.permutation(elems)] if n >= 2 else list(elems)
+                edit = SEQ_EDITS[int(srng.integers(len(SEQ_EDITS)))]
+                if edit == "extend" and n > 3:            # an enumerator that reads the list late would have to list up to 12!/(3!)^4 tuples
+                    edit = "append-dup"
+                check_unique_perms_sequence(ctx, listing, edit, SEQ_WHEN[int(srng.integers(3) == 0)], model_ok and n <= 4)
+    for k, order in enumerate(("forward", "reverse", "round-robin") * (2 if quick else 10)):
+        grng = case_rng("c18/unique_perms_growing", int(ctx.seed), k)
+        check_unique_perms_growing(ctx, [int(x) for x in grng.choice([1, 2, 3, -4], size=int(grng.integers(2, 6)))], order)
     check_unique_perms(ctx, [1, 1, 2, 2, 1, 2, 1, 3, 3, 3], False)  # the docstring example (4200)
 
     # perfect_matchings
@@ -538,6 +734,8 @@ def run(ctx, model_ok=True):
             labels = [int(x) for x in rng.choice(50, size=n, replace=False)]
             check_matchings(ctx, labels, "list", model_ok)
             check_matchings(ctx, [int(x) - 7 for x in rng.permutation(n)], "array", model_ok)
+            check_matchings_sequence(ctx, labels, "list")
+            check_matchings_sequence(ctx, [3 * x + 1 for x in range(n)], "array")
     probe_matchings_empty(ctx, model_ok)
     if not quick:
         for _ in range(40):
@@ -571,6 +769,12 @@ def replay(ctx, rec):
         check_unique_perms(ctx, a["elements"], True)
     elif fn == "perfect_matchings":
         check_matchings(ctx, a["objects"], a["form"], True)
+    elif fn == "unique_perms_seq":
+        check_unique_perms_sequence(ctx, a["elements"], a["edit"], a["when"], True)
+    elif fn == "unique_perms_growing":
+        check_unique_perms_growing(ctx, a["values"], a["order"])
+    elif fn == "perfect_matchings_seq":
+        check_matchings_sequence(ctx, a["objects"], a["form"])
     elif fn in ("symmetric_projection", "antisymmetric_projection"):
         anti = fn.startswith("anti")
         if a.get("partial"):
